@@ -14,7 +14,7 @@ RULE = ("(create) generated release / optional base product (shorts incl. dashes
         "from ComposeInfo.create_compose_id() must start with short-version[-type], validate as compose.id, and decode to "
         "exactly (date, type, respin); (decode) every documented suffix spelling, missing respin, unknown suffixes; (legacy) "
         "pre-0.3 composeinfo documents whose date/type/respin exist only in the id. Non-trivial = type != production or "
-        "respin > 9 or an 8-digit run in the version/short or layered; distinct = SHA-1 of the case.")
+        "respin > 9 or an 8-digit run in the version/short or layered; distinct = SHA-1 of the case. Ids are created again on the same and on a loaded object after the fields changed, and for composes that have variants (including the RHEL-5-on-RHEL-5 family the library treats specially).")
 ASSUMPTIONS = ["respins >= 10^7 are a recorded known finding (KF-C15-8digit-respin) and are excluded by construction"]
 FLOORS = {"distinct_nontrivial": 1500, "create:digit-run": 50, "create:layered": 200}
 
@@ -92,6 +92,8 @@ decode_strategy = st.fixed_dictionaries({
                         st.builds(lambda s, v: "%s-%s" % (s, v), gen.short_text, gen.version_text)),
     "date": gen.date8,
     "suffix": st.one_of(st.sampled_from(sorted(SUFFIX_TABLE)), st.sampled_from([".x", ".production", ".c", ".foo", ".nn", ".tt", ".dev", ".nightlyx"]),
+                        # every spelling derived from a compose type name: the full name, its first letter, prefixes, a plural
+                        st.sampled_from(sorted(set(s for t in gen.COMPOSE_TYPES for s in ("." + t, "." + t[0], "." + t[:3], "." + t[:-1], "." + t + "s")))),      # lower case only: anything else is not a suffix at all (free-form id tail)
                         st.from_regex(r"\.[a-z]{1,9}", fullmatch=True)),
     "respin": st.one_of(st.none(), gen.respin),
 })
